@@ -68,12 +68,13 @@ Record variant := {
   release_if_holds : bool;   (* false (as shipped): release iff not was_cached; true: iff the job still holds units *)
   recheck_on_skip : bool;    (* false (as shipped): a re-nominated job that ends up collapsed/cached wakes nobody *)
   ctx_strict : bool;         (* false (as shipped): a context-free call may reuse a record made under a context *)
-  pop_own_only : bool        (* false (as shipped): _finalize_job pops _pending_jobs[key] whoever owns the entry *)
+  pending_owner_safe : bool  (* false (as shipped): submitting overwrites _pending_jobs[key] and _finalize_job pops it
+                                whoever owns the entry; true: register only if absent, pop only one's own entry *)
 }.
 Definition as_shipped : variant :=
-  {| release_if_holds := false; recheck_on_skip := false; ctx_strict := false; pop_own_only := false |}.
+  {| release_if_holds := false; recheck_on_skip := false; ctx_strict := false; pending_owner_safe := false |}.
 Definition all_fixed : variant :=
-  {| release_if_holds := true; recheck_on_skip := true; ctx_strict := true; pop_own_only := true |}.
+  {| release_if_holds := true; recheck_on_skip := true; ctx_strict := true; pending_owner_safe := true |}.
 
 Record config := {
   limit_of : nat -> Z;       (* configured limit; 1 for an unconfigured name *)
@@ -209,7 +210,7 @@ Definition finalize (c : config) (s : state) (j : nat) : state :=
   | Some x =>
       let k := (jkey x, jctx x) in
       set_pending s (filter (fun p => negb (key_eqb (fst p) k &&
-                                           (if pop_own_only (vr c) then Nat.eqb (snd p) j else true)))
+                                           (if pending_owner_safe (vr c) then Nat.eqb (snd p) j else true)))
                             (pending s))
   end.
 
@@ -312,7 +313,10 @@ Definition exec_job (c : config) (s : state) (j : nat) (co : cache_outcome) : st
                 then enqueue (setj s1 j (mark_holds x PReported)) (EvReject j 0%Z)
                 else
                   let s2 := setj s1 j (mark_submitted (mark_holds x PSubmitted)) in
-                  add_submit (set_pending s2 ((k, j) :: filter (fun p => negb (key_eqb (fst p) k)) (pending s2))) j
+                  add_submit (set_pending s2
+                    (if pending_owner_safe (vr c)
+                     then match lookup_pending s2 k with Some _ => pending s2 | None => (k, j) :: pending s2 end
+                     else (k, j) :: filter (fun p => negb (key_eqb (fst p) k)) (pending s2))) j
           end
       end
   end.
